@@ -76,7 +76,8 @@ def image_case(draw):
         for _ in range(draw(st.sampled_from([0, 0, 1, 2]))):
             fq.append([draw(st.integers(0, c["tracks"] - 1)), draw(st.integers(0, c["spt"] - 1)),
                        draw(st.sampled_from(["size0", "size2", "size3", "dup", "wrongcyl", "wronghead", "deleted",
-                                             "badcrc", "deleted-badcrc"]))])
+                                             "badcrc", "deleted-badcrc", "orphan-near", "orphan-far", "orphan-far",
+                                             "idonly"]))])
         c["flux_quirks"] = fq
     else:
         c["tracks"] = draw(st.sampled_from([40, 80, 35]))
@@ -174,7 +175,10 @@ def cli_materialise(case, sb, out, v=None):
 
 QUIRK = {"size0": {"size_code": 0}, "size2": {"size_code": 2}, "size3": {"size_code": 3}, "dup": {"dup": True},
          "wrongcyl": {"cyl": 77}, "wronghead": {"head": 1}, "deleted": {"mark": 0xF8}, "badcrc": {"crc_xor": 0x0100},
-         "deleted-badcrc": {"mark": 0xF8, "crc_xor": 1}}
+         "deleted-badcrc": {"mark": 0xF8, "crc_xor": 1},
+         # an ID field without a record: 8 / 60 gap bytes in front of the (intact) sector, or instead of its record
+         "orphan-near": {"orphan": {"gap": 8}}, "orphan-far": {"orphan": {"gap": 60}},
+         "idonly": {"id_only": True, "id_gap": 3}}
 
 
 def flux_quirks_fn(c):
